@@ -1487,6 +1487,104 @@ theorem probs_svd_mix_law {minP : K} (hmin : minP ≤ 0) (ds : List (AnyDet K)) 
         = W * (a.2 * b.2 * prob b.1 (reportState h keep t)) := by field_simp
       _ = _ := by rw [hl]; field_simp
 
+/-- **mixed input on the all-PNR path** (no detector / unset / `Detector.pnr()` only; the backend applies the heralds as
+a mask to every member): for EVERY `min_p` and EVERY precision — `simulate_detectors` returns its input, so neither is
+used after `_preprocess_svd` — with `kept` the members `_preprocess_svd` keeps and `D` the accumulated mixture of what
+the backend returns for them: `physical_perf` is the input filter's, `logical_perf` the accepted mass of `D` over it, and
+for every accepted state `t`
+`physical_perf · logical_perf · results[reported t] = ∑_{m ∈ kept} p_m · base_m[t]`. -/
+theorem probs_svd_mix_pnr_law (minP rel : K) (ds : List (AnyDet K)) (ms : List (Member K)) (n : ℕ)
+    (hbase : ∀ m ∈ ms, (keys m.base).Nodup ∧ KeysLen m.base n)
+    (uf F : ℕ) (h : List (ℕ × ℕ)) (hF : F = uf + (h.map (·.2)).sum) (ps : PS) (keep : Bool)
+    (hchk : checkHeralds h ds = .ok true) (hty : detectionType ds = .PNR)
+    (hD : 0 < mass (mixRaw h (useMask h ds) (preKept minP rel F ms)).1) (hphys0 : 0 < prePhys F ms) :
+    ∃ out, probsSvdMix minP rel ms ds uf h ps keep = .ok out ∧
+      out.phys = prePhys F ms ∧
+      out.logical = mass ((mixRaw h (useMask h ds) (preKept minP rel F ms)).1.filter
+        fun e => accepted ps h e.1) / prePhys F ms ∧
+      ∀ t : List ℕ, t.length = n → accepted ps h t = true → out.logical ≠ 0 →
+        out.phys * out.logical * prob out.results (reportState h keep t)
+          = ((preKept minP rel F ms).map fun m => m.p * prob m.base t).sum := by
+  set kept := preKept minP rel F ms with hkdef
+  have hkm : ∀ m ∈ kept, m ∈ ms := fun m hm => (List.mem_filter.mp hm).1
+  set D := (mixRaw h (useMask h ds) kept).1 with hDdef
+  have hM : mass D ≠ 0 := ne_of_gt hD
+  have hP : prePhys F ms ≠ 0 := ne_of_gt hphys0
+  have hDnd : (keys D).Nodup := mixRaw_nodup h _ kept
+  have hrawkl : ∀ m ∈ kept, KeysLen (memberRaw h (useMask h ds) m) n := by
+    intro m hm
+    unfold memberRaw
+    split
+    · exact (hbase m (hkm m hm)).2.filter _
+    · exact (hbase m (hkm m hm)).2
+  have hDkl : KeysLen D n := mixRaw_keysLen h _ kept n hrawkl
+  set res := normalize D with hres
+  have hresnd : (keys res).Nodup := by rw [hres, keys_normalize]; exact hDnd
+  have hres1 : mass res = 1 := mass_normalize D hM
+  have hresne : res.isEmpty = false := by
+    cases hr : res with
+    | nil => rw [hr] at hres1; simp at hres1
+    | cons e l => rfl
+  have hsim : ∀ T : K, simulateThr minP T res ds (some F) = (res, 1) := by
+    intro T
+    rw [simulate_threshold_ignored minP T res ds (some F) (Or.inr (Or.inl hty)),
+      simulate_pnr_identity minP res ds (some F) (Or.inr hty)]
+  obtain ⟨hlog, hprob⟩ := postSelect_core ps h keep res n hresnd hDkl.normalize hres1
+  have hfilt : mass (res.filter fun e => accepted ps h e.1)
+      = mass (D.filter fun e => accepted ps h e.1) / mass D := by
+    rw [hres]
+    unfold normalize
+    rw [if_neg hM]
+    generalize mass D = c
+    induction D with
+    | nil => simp
+    | cons e l ih =>
+      simp only [List.map_cons]
+      by_cases hp : accepted ps h e.1 = true
+      · rw [List.filter_cons_of_pos (by simpa using hp), List.filter_cons_of_pos (by simpa using hp)]
+        simp only [mass_cons, ih]; ring
+      · rw [List.filter_cons_of_neg (by simpa using hp), List.filter_cons_of_neg (by simpa using hp)]
+        exact ih
+  have hmix2 : (mixRaw h (useMask h ds) kept).2 = mass D := by rw [mixRaw_snd]
+  refine ⟨⟨(postSelect ps h keep res).1, prePhys F ms * 1, (mass D / prePhys F ms) * (postSelect ps h keep res).2⟩,
+    ?_, ?_, ?_, ?_⟩
+  · unfold probsSvdMix
+    rw [hchk]
+    simp only [← hF, ← hkdef, ← hDdef, ← hres, hresne, Bool.false_eq_true, if_false, hsim, hmix2, hD, hphys0, and_self,
+      if_true]
+  · simp
+  · show (mass D / prePhys F ms) * (postSelect ps h keep res).2 = _
+    rw [hlog, hfilt]
+    field_simp
+  · intro t ht hacc hA
+    show prePhys F ms * 1 * ((mass D / prePhys F ms) * (postSelect ps h keep res).2)
+      * prob (postSelect ps h keep res).1 (reportState h keep t) = _
+    have hb2 : mass (res.filter fun e => accepted ps h e.1) ≠ 0 := by
+      intro h0
+      apply hA
+      show (mass D / prePhys F ms) * (postSelect ps h keep res).2 = 0
+      rw [hlog, h0, mul_zero]
+    rw [hprob t ht hacc hb2, hlog, hres, prob_normalize D t hM, ← hres]
+    have hwt : prob D t = (kept.map fun m => m.p * prob m.base t).sum := by
+      rw [prob_eq_wt D hDnd, hDdef, mixRaw_wt]
+      apply congrArg
+      apply List.map_congr_left
+      intro m hm
+      have hmnd : (keys (memberRaw h (useMask h ds) m)).Nodup := by
+        unfold memberRaw
+        split
+        · exact keys_filter_nodup _ m.base (hbase m (hkm m hm)).1
+        · exact (hbase m (hkm m hm)).1
+      rw [← prob_eq_wt _ hmnd]
+      unfold memberRaw
+      split
+      · rw [prob_selectHeralds]
+        simp only [accepted, Bool.and_eq_true] at hacc
+        rw [if_pos hacc.1]
+      · rfl
+    rw [← hwt]
+    field_simp
+
 /-- for a normalised input (`∑ p_m = 1`) the factor `1 − weight below the filter` IS `W`: the physical performance
 is the weighted sum of the members' performances over the members that pass the input filter -/
 theorem probs_svd_mix_phys_normalised (F : ℕ) (ms : List (Member K)) (hsum : (ms.map (·.p)).sum = 1) :
@@ -1923,6 +2021,33 @@ example :
     rcases hm with rfl | rfl <;> simp [memberRaw]
   · rw [hmix]; simp
 
+/-- `probs_svd_mix_pnr_law`: hypotheses satisfiable at the shipped `min_p = 1e-16` and precision `1e-3` — a lossy two-mode
+mixture, no detectors, herald `{0: 1}` (the backend mask is on) -/
+example :
+    let ds : List (AnyDet ℚ) := []
+    let h : List (ℕ × ℕ) := [(0, 1)]
+    let ms : List (Member ℚ) := [⟨1 / 2, 2, [([1, 1], 1 / 2), ([2, 0], 1 / 2)]⟩, ⟨1 / 2, 1, [([1, 0], 1 / 2), ([0, 1], 1 / 2)]⟩]
+    (∀ m ∈ ms, (keys m.base).Nodup ∧ KeysLen m.base 2) ∧ (1 : ℕ) = 0 + (h.map (·.2)).sum ∧
+      checkHeralds h ds = .ok true ∧ detectionType ds = .PNR ∧ useMask h ds = true ∧
+      preKept (1 / 10000000000000000 : ℚ) (1 / 1000) 1 ms = ms ∧
+      0 < mass (mixRaw h (useMask h ds) (preKept (1 / 10000000000000000 : ℚ) (1 / 1000) 1 ms)).1 ∧ 0 < prePhys 1 ms := by
+  have hk : preKept (1 / 10000000000000000 : ℚ) (1 / 1000) 1
+      ([⟨1 / 2, 2, [([1, 1], 1 / 2), ([2, 0], 1 / 2)]⟩, ⟨1 / 2, 1, [([1, 0], 1 / 2), ([0, 1], 1 / 2)]⟩] : List (Member ℚ))
+      = [⟨1 / 2, 2, [([1, 1], 1 / 2), ([2, 0], 1 / 2)]⟩, ⟨1 / 2, 1, [([1, 0], 1 / 2), ([0, 1], 1 / 2)]⟩] := by
+    norm_num [preKept, preThreshold, preMaxP]
+  have hm : useMask [(0, 1)] ([] : List (AnyDet ℚ)) = true := by
+    simp [useMask, detectionType]
+  refine ⟨?_, rfl, rfl, by simp [detectionType], hm, hk, ?_, by norm_num [prePhys]⟩
+  · intro m hm'
+    simp only [List.mem_cons, List.not_mem_nil, or_false] at hm'
+    rcases hm' with rfl | rfl
+    · refine ⟨by simp [keys], ?_⟩
+      intro e he; simp at he; rcases he with rfl | rfl <;> rfl
+    · refine ⟨by simp [keys], ?_⟩
+      intro e he; simp at he; rcases he with rfl | rfl <;> rfl
+  · rw [hk, hm]
+    norm_num [mixRaw, mixAdd, memberRaw, selectHeralds, heraldsOk, bump, mass]
+
 /-- `reading_below_max_not_exact`: hypotheses satisfiable (`Detector.ppnr(3)`, reading 1 < 3) -/
 example : mkDetector (some 3) none = .ok (.wired 3 3) ∧ (0 : ℚ) ≤ 0 ∧ (1 : ℕ) ≤ 1 ∧
     1 < (none : Option ℕ).getD 3 := by
@@ -1951,7 +2076,7 @@ example : mkDetector (some 3) none = .ok (.wired 3 3) ∧ (0 : ℚ) ≤ 0 ∧ (1
     `simulate_detectors` step is the one bounded above; `logical_perf` is characterised through the pointwise identity
     (its closed form as a weighted sum of the members' accepted masses is not stated separately); members are
     un-annotated Fock states (superposed / partially distinguishable inputs belong to C03–C05); the all-PNR (mask) path of
-    the mixture is in the model and compared, without a separate theorem;
+    the mixture is PROVED in round 4 for every `min_p` and precision (`probs_svd_mix_pnr_law`);
   * the statistical quality of `BSDistribution.sample`; progress callbacks / cancellation;
   * histories that change `min_p` between calls are PROVED in round 4 for the repaired code
     (`detect_history_minp_eq_fresh`, `bs_history_minp_eq_fresh`; pinned code: `detect_history_minp_pinned_law`,
